@@ -36,6 +36,7 @@ type stateAn struct {
 	stores   map[*ssa.Global][]*ssa.Store // stores outside package init (whole or partial)
 	escapes  map[*ssa.Global][]ssa.Instruction
 	summ     map[*ssa.Function]*fsum
+	inputs   gset // function passes: package variables no function of the unit writes (configuration injected before the unit)
 	progress map[*ssa.Function]bool
 	obsMemo  map[*ssa.UnOp]int // 1 observing, 2 self-only
 	allRMemo map[*ssa.Function]map[*ssa.Global]token.Pos
@@ -342,14 +343,14 @@ func (a *stateAn) fresh(v ssa.Value, state gset, seen map[ssa.Value]bool) bool {
 	case *ssa.UnOp:
 		if x.Op == token.MUL {
 			if g, _ := globalOfAddr(x.X); g != nil {
-				return !a.mutable[g] || state[g]
+				return !a.mutable[g] || state[g] || a.inputs[g]
 			}
 		}
 		return a.fresh(x.X, state, seen)
 	case *ssa.Call:
 		for _, c := range a.p.ownCallees(x) {
 			for g := range a.allReads(c) {
-				if a.mutable[g] && !state[g] {
+				if a.mutable[g] && !state[g] && !a.inputs[g] {
 					return false
 				}
 			}
@@ -877,6 +878,29 @@ func runE3(p *Program, sp *Spec, c *Collector) {
 		if !okAnchors {
 			continue
 		}
+		// a function pass: what no function of the unit ever writes is input (configuration a constructor injected), not state
+		// left behind by the previous unit
+		if len(a.inputs) > 0 {
+			a.inputs = nil
+			a.summ = map[*ssa.Function]*fsum{}
+		}
+		if ps.Kind == "function" {
+			written := gset{}
+			for f := range p.reach(pi.entries) {
+				_, w := a.locals(f)
+				for g := range w {
+					written[g] = true
+				}
+			}
+			in := gset{}
+			for g := range a.mutable {
+				if !written[g] {
+					in[g] = true
+				}
+			}
+			a.inputs = in
+			a.summ = map[*ssa.Function]*fsum{}
+		}
 		// entry sequence
 		Rentry := map[*ssa.Global]token.Pos{}
 		killedBy := map[*ssa.Global]string{}
@@ -959,6 +983,12 @@ func runE3(p *Program, sp *Spec, c *Collector) {
 			_, earlyRead := Rentry[g]
 			acc := acceptedFor(ps, p.GlobalKey(g))
 			switch {
+			case earlyRead && a.inputs[g] && ps.Pure:
+				c.Ob(ps.Props, "E3.unit-state", key, Violated,
+					fmt.Sprintf("the result must be a function of the arguments, but %s is read (%s): it holds whatever %s left there", g.Name(), p.Pos(Rentry[g]), a.writerNames(g)),
+					p.Pos(Rentry[g]), false)
+			case earlyRead && a.inputs[g]:
+				c.Ob(ps.Props, "E3.unit-state", key, Discharged, "input of the unit: read, but written by no function the unit reaches (writers: "+a.writerNames(g)+")", pos, true)
 			case earlyRead:
 				c.Ob(ps.Props, "E3.unit-state", key, Violated,
 					fmt.Sprintf("read at unit entry (%s) before any state-independent assignment: the value left by the previous unit is used; writers: %s", p.Pos(Rentry[g]), a.writerNames(g)),
@@ -1004,6 +1034,10 @@ func runE3(p *Program, sp *Spec, c *Collector) {
 		if ps.Kind == "listener" {
 			runE3Drivers(p, sp, c, a, pi)
 		}
+	}
+	if len(a.inputs) > 0 {
+		a.inputs = nil
+		a.summ = map[*ssa.Function]*fsum{}
 	}
 	for _, rs := range sp.ReceiverState {
 		runReceiverState(p, c, rs)
